@@ -89,6 +89,9 @@ type Exec struct {
 	OnLoopBack func(s *State, f *Frame, lp *Loop)
 	// OnInit is called on the initial state of a verified function.
 	OnInit func(s *State, f *Frame)
+	// ComparableIface reports whether values of this static interface type always
+	// hold comparable dynamic types (library node / type / object interfaces hold pointers).
+	ComparableIface func(t types.Type) bool
 	// OnAlloc is called for every struct object allocated by the code under verification.
 	OnAlloc func(s *State, id *Term, t types.Type)
 	// FrameScope reports whether an opaque callee's body is scanned for the heap
@@ -195,7 +198,37 @@ func (x *Exec) typeID(t types.Type) int64 {
 	id := int64(len(x.typeIDs) + 1)
 	x.typeIDs[k] = id
 	x.typeList = append(x.typeList, t)
+	if types.Comparable(t) {
+		x.Ctx.DeclareFunc("comparable", []string{SInt}, SBool)
+		x.Ctx.AddAxiom(&Axiom{Name: fmt.Sprintf("comparable-%d", id), Triggers: []string{"comparable"}, Body: fmt.Sprintf("(comparable %d)", id)})
+	}
 	return id
+}
+
+// ifaceCompareSafety: comparing two interface values panics when both hold the
+// same dynamic type and that type is not comparable (slices, maps, functions,
+// structs containing them). Emitted only where neither operand is the nil
+// literal and the static interface type is not known to hold comparable values.
+func (x *Exec) ifaceCompareSafety(s *State, f *Frame, in *ssa.BinOp) {
+	if !x.Safety {
+		return
+	}
+	it, ok := in.X.Type().Underlying().(*types.Interface)
+	if !ok {
+		return
+	}
+	_ = it
+	isNil := func(v ssa.Value) bool { c, ok := v.(*ssa.Const); return ok && c.Value == nil }
+	if isNil(in.X) || isNil(in.Y) {
+		return
+	}
+	if x.ComparableIface != nil && x.ComparableIface(in.X.Type()) {
+		return
+	}
+	a, b := x.scalar(x.val(s, f, in.X)), x.scalar(x.val(s, f, in.Y))
+	x.Ctx.DeclareFunc("comparable", []string{SInt}, SBool)
+	cond := Or(Eq(a, IntLit(0)), Eq(b, IntLit(0)), Neq(x.typeOfTerm(a), x.typeOfTerm(b)), App("comparable", SBool, x.typeOfTerm(a)))
+	x.safety(s, f, in, "interface-comparison-of-uncomparable-values", cond)
 }
 
 func (x *Exec) typeIDByName(name string) int64 {
@@ -692,6 +725,9 @@ func (x *Exec) step(s *State, f *Frame, instr ssa.Instruction) []*State {
 	case *ssa.UnOp:
 		return x.unop(s, f, in)
 	case *ssa.BinOp:
+		if in.Op == token.EQL || in.Op == token.NEQ {
+			x.ifaceCompareSafety(s, f, in)
+		}
 		f.Regs[in] = x.binop(s, in.Op, x.val(s, f, in.X), x.val(s, f, in.Y), in.X.Type())
 		f.Idx++
 		return nil
